@@ -64,6 +64,7 @@ type Interp struct {
 	gmut    map[*ssa.Global]bool // globals written outside init
 	pureBlk map[*ssa.BasicBlock]int8
 	mutexes map[*Value]int
+	spec    *specState
 }
 
 type methodKey struct {
@@ -450,6 +451,21 @@ func (in *Interp) concretePtr(p Ptr) Ptr {
 }
 
 func (in *Interp) store(p Ptr, v Value) {
+	if sp := in.spec; sp != nil {
+		// speculative side block of a merged branch: only scalar stores to concrete cells
+		if _, ok := v.(*Term); !ok || p.idx != nil || p.cell == nil {
+			panic(pathAbort{"nospec", "store not mergeable"})
+		}
+		if _, ok := (*p.cell).(*Term); !ok {
+			panic(pathAbort{"nospec", "store not mergeable"})
+		}
+		if !sp.seen[p.cell] {
+			sp.seen[p.cell] = true
+			sp.log = append(sp.log, specWrite{p.cell, *p.cell})
+		}
+		*p.cell = v
+		return
+	}
 	if p.idx != nil {
 		n := len(p.arr)
 		if nv, ok := v.(*Term); ok && n <= 512 {
